@@ -392,6 +392,17 @@ def p_window_does_not_fit(c):
     if where == "sliding":
         out += expect_accepted(sut(lambda: list(SlidingWindowSplitter(fh=c["fh"], window_length=n - h).split(y))), "sliding.split")
         out += expect_rejected(sut(lambda: list(SlidingWindowSplitter(fh=c["fh"], window_length=n - h + 1 + c["excess"]).split(y))), "window_too_long:sliding.split")
+        # ... whichever way the splitter starts, and when it is the cv of update_predict
+        for sww in (True, False):
+            out += expect_accepted(sut(lambda: list(SlidingWindowSplitter(fh=c["fh"], window_length=n - h, start_with_window=sww).split(y))),
+                                   "sliding(start_with_window=%s).split" % sww)
+            out += expect_rejected(sut(lambda: list(SlidingWindowSplitter(fh=c["fh"], window_length=n - h + 1 + c["excess"], start_with_window=sww).split(y))),
+                                   "window_too_long:sliding(start_with_window=%s).split" % sww)
+            out += expect_rejected(sut(lambda: list(ExpandingWindowSplitter(fh=c["fh"], initial_window=n - h + 1 + c["excess"], start_with_window=sww).split(y))),
+                                   "window_too_long:expanding(start_with_window=%s).split" % sww)
+            g = NaiveForecaster().fit(gen.build_series([3.0, 4.5, 5.25, 4.0], int(y.index[0]) - 4, c["index_kind"]))
+            out += expect_rejected(sut(g.update_predict, y.copy(), SlidingWindowSplitter(fh=c["fh"], window_length=n - h + 1 + c["excess"], start_with_window=sww)),
+                                   "window_too_long:update_predict(cv start_with_window=%s)" % sww)
     elif where == "sliding_initial":
         # the regular window fits, the initial window does not
         wl = max(1, min(c.get("wl_small", 2), n - h - 1))
